@@ -113,9 +113,12 @@ class C08(Spec):
                   "awaited release, destructor, move into a temporary, move-assignment over a held ownership incl. hand-over-hand with a second mutex) enters the same unlock step, and "
                   "requests come from co_await, try_lock, blocking lock()/ownership(co_awaiter&&)/force_wait (also from plain code inside a running coroutine) and callback awaiters. Tied to mutex.h by step-for-step replay of generated/enumerated schedules; FIFO and "
                   "no-loss oracles on the implementation trace.")
-    level_note = ("trusted: Lean kernel; hand-written list-level model; baton shim (SC interleavings); which OS thread continues the new owner is modelled by the executor glue of the "
-                  "same model and validated by the replay.")
+    level_note = ("trusted: Lean kernel; hand-written list-level model and pointer-level model (MutexPtr.lean: _requests/_queue/_next as pointers, build_queue as exchange + explicit loop, "
+                  "unlock popping by pointer), the latter proved to refine the former (Repr, agentStep_sim, threadStep_sim: c08_ptr_refines_list[_threads], c08_build_queue_is_reversal, "
+                  "c08_queue_is_arrival_order_ptr) and compared with the real pointer state after every operation (suite ptr-level); baton shim (SC interleavings); which OS thread continues "
+                  "the new owner is modelled by the executor glue of the same models and validated by the replay.")
     trusted_base = ["model lean/CoclsModel/Mutex.lean tied to mutex.h by step-for-step replay (harness/h_mutex.cpp) against lean/Drivers/C07.lean",
+                    "model lean/CoclsModel/MutexPtr.lean tied to mutex.h by step-for-step replay including a digest of the real _requests/_queue/_next links against lean/Drivers/C08P.lean",
                     "C++20 coroutine machinery and libstdc++ as specified"]
     assumptions = ["interleavings are sequentially consistent (memory orders: C03)", "every owner eventually releases (liveness is stated as: no stuck state)"]
 
